@@ -308,6 +308,13 @@ func (ex *Exec) applyContract(fr *Frame, c *Contract, names []string, args []Val
 			vars[n] = args[i]
 		}
 	}
+	if callee := ex.prog.FuncByKey[c.Key]; callee != nil {
+		for i := range names {
+			if i < len(args) {
+				ex.aliasName(vars, callee, ex.prog.recordedParam(callee, i), names[i], args[i])
+			}
+		}
+	}
 	pre := st.clone()
 	envPre := &SpecEnv{vars: vars, st: pre, lst: pre, pkg: tpkg, topOld: pre.top, recovered: ex.recoveredArg}
 	envPre.old = envPre
@@ -421,6 +428,9 @@ func (ex *Exec) applyContract(fr *Frame, c *Contract, names []string, args []Val
 		rvars[fmt.Sprintf("result%d", i)] = val
 		if rv.Name() != "" && rv.Name() != "_" {
 			rvars[rv.Name()] = val
+		}
+		if callee := ex.prog.FuncByKey[c.Key]; callee != nil {
+			ex.aliasName(rvars, callee, ex.prog.recordedResult(callee, i), rv.Name(), val)
 		}
 	}
 	if len(results) == 1 {
